@@ -142,9 +142,10 @@ def step' (d : DSt) (toks0 : List String) : DSt × String :=
   | ["ingest_error", id, c] => if natD c = 0 then (d, "bad-op") else doOp d (.ingest (natD id) .failedOp (natD c) .now)
   | ["ingest_sensitive", id, c] => doOp d (.ingest (natD id) .toxic (natD c) .now)
   | ["prune", id, f] =>
-    -- AutophagyDaemon.check_and_prune on a daemon sharing this lysosome: when it prunes it ingests exactly one
-    -- EXPIRED_CACHE item (content code 1) and does nothing else to the lysosome
-    if f = "1" then doOp d (.ingest (natD id) .expired 1 .now) else doOp d (.advance 0)
+    -- AutophagyDaemon.check_and_prune on a daemon sharing this lysosome: when it prunes (mode 1: forced, large
+    -- context; mode 2: context at 90 % of the window) it ingests exactly one EXPIRED_CACHE item (content code 1) and
+    -- does nothing else to the lysosome; mode 0 (tiny context) and 3 (forced, but below min_tokens_for_pruning): nothing
+    if f = "1" || f = "2" then doOp d (.ingest (natD id) .expired 1 .now) else doOp d (.advance 0)
   | ["digest", k] => doOp d (.digest (optInt k))
   | ["autophagy"] => doOp d .autophagy
   | ["adv", us] => doOp d (.advance (natD us))
